@@ -94,6 +94,13 @@ class SymFloat:
     __radd__ = __add__
 
     def __sub__(self, o):
+        if isinstance(o, (int, SymInt)) and not isinstance(o, bool):
+            # x - floor(x) (and x - trunc(x) for x >= 0) is exact in IEEE arithmetic (Sterbenz)
+            key = ('floorof', term_of(o).get_id() if isinstance(o, SymInt) else ('c', o))
+            src = ctx().memo.get(key) if core.active() else None
+            if src is not None and src[0] is self:
+                rem = src[1] if src[1] is not None else self.n - o * self.den
+                return SymFloat(rem, self.den, self.err, self.err == 0)
         o = as_float(o)
         if o is None:
             return NotImplemented
@@ -228,7 +235,15 @@ class SymFloat:
         return mk_int(term_of(q) + adj, qlo - 1, qhi + 1)
 
     def __floor__(self):
-        return self._floor()
+        q = self._floor()
+        if core.active():
+            key = ('floorof', term_of(q).get_id() if isinstance(q, SymInt) else ('c', q))
+            rem = None
+            if self.err == 0 or (int(self.err * self.den) == 0 and self.cr):
+                # exact floor: remainder of the integer division, with its tight interval
+                rem = core.sx_divmod(self.n, self.den)[1] if self.den != 1 else 0
+            ctx().memo[key] = (self, rem)
+        return q
 
     def __ceil__(self):
         return -((-self)._floor())
@@ -236,7 +251,7 @@ class SymFloat:
     def __trunc__(self):
         lo, hi = self.bounds()
         if lo >= 0:
-            return self._floor()
+            return self.__floor__()
         if hi <= 0:
             return -((-self)._floor())
         if self < 0:
